@@ -15,7 +15,8 @@ ANY = '*'
 # ---------------------------------------------------------------------------------------------- C06
 # inner kinds: T TaskSet, C ConcurrentTaskSet heavy, L ConcurrentTaskSet lightweight, F async futures,
 #              P parallel_for (waiting), B scheduleBulk + wait
-# o (outer set) in T|C|L, '*' = all three; fq bit0 outer forced to the queue, bit1 inner forced, '*' = {1, 3, 0}
+# o (outer set) in T|C|L; fq bit0 outer forced to the queue, bit1 inner forced; t0 = w (T0 waits on the outer set, i.e. helps) |
+# i (T0 idle: blocks outside dispenso until the outer tasks ended, the pool is on its own); o='*' = 12 (o, fq, t0) variants
 KINDS = 'TCLFPB'
 WP0 = {'wakepick_cost': 0}
 
@@ -27,58 +28,59 @@ def _multisets(alpha, size):
 def c06_runs(tier):
     runs, seen = [], set()
 
-    def add(n, prog, o, fq, bound, k=1, mode='plain', budget=40):
-        key = (n, prog, o, fq, bound, k, mode)
+    def add(n, prog, o, fq, bound, t0='w', k=1, mode='plain', budget=40):
+        key = (n, prog, o, fq, t0, bound, k, mode)
         if key in seen:
             return
         seen.add(key)
-        runs.append(McRun(BIN, 'nest', dict(n=n, prog=prog, o=o, fq=fq, k=k), bound=bound, mode=mode, opts=WP0, budget=budget))
+        params = dict(n=n, prog=prog, o=o, k=k)
+        if o != ANY:  # o='*' picks (outer kind, forcing, T0 role) from the harness's list of 12 variants
+            params.update(fq=fq, t0=t0)
+        runs.append(McRun(BIN, 'nest', params, bound=bound, mode=mode, opts=WP0, budget=budget))
 
-    add(0, 'TCLFPB', ANY, ANY, 0)
+    add(0, 'TCLFPB', ANY, 0, 0)
     if tier == 'quick':
-        # one worker, one outer task (outer size N): every inner kind x outer set kind x forcing variant
+        # one worker, one outer task (outer size N): every inner kind x the 12 variants
         for kind in KINDS:
-            add(1, kind, ANY, ANY, 1, budget=20)
-        add(1, 'CF', 'C', 1, 1, mode='tsan', budget=25)
-        add(1, 'TL', 'T', 1, 1, mode='asan', budget=25)
-        # two workers with N and N+1 outer tasks on the heavy (steal-ring) outer set
-        for prog in ('CC', 'CT', 'TT'):
-            add(2, prog, 'C', 1, 1, budget=20)
-        add(2, 'CCC', 'C', 1, 1, budget=20)
+            add(1, kind, ANY, 0, 1, budget=20)
         # one worker, two outer tasks (outer size N+1): every pair containing a steal-ring user (C or F)
         for prog in _multisets(KINDS, 2):
             if 'C' in prog or 'F' in prog:
-                add(1, prog, 'C', ANY, 1, budget=15)
+                add(1, prog, 'C', 1, 1, t0=ANY, budget=12)
+        add(1, 'CF', 'C', 1, 1, t0='i', mode='tsan', budget=20)
+        add(1, 'TL', 'T', 1, 1, mode='asan', budget=20)
+        # two workers with N and N+1 outer tasks on the heavy (steal-ring) outer set, T0 waiting and T0 idle (time-boxed)
+        for prog in ('CC', 'CF', 'CCC'):
+            add(2, prog, 'C', 1, 1, t0=ANY, budget=15)
     else:
         for size in (1, 2):
             for prog in _multisets(KINDS, size):
-                add(1, prog, ANY, ANY, 1, budget=40)
-        add(1, 'CF', 'C', 1, 1, mode='tsan', budget=60)
-        add(1, 'TL', 'T', 1, 1, mode='asan', budget=60)
+                add(1, prog, ANY, 0, 1, budget=25)
+        add(1, 'CF', 'C', 1, 1, t0='i', mode='tsan', budget=50)
+        add(1, 'TL', 'T', 1, 1, mode='asan', budget=50)
         # bound 2 on the smallest: one worker, one or two outer tasks
-        for prog in ('T', 'C', 'L', 'F'):
-            add(1, prog, ANY, 1, 2, budget=60)
-        for prog in ('CC', 'CT'):
-            add(1, prog, 'C', 1, 2, budget=60)
+        for prog in ('T', 'C', 'L', 'F', 'CC', 'CF'):
+            add(1, prog, 'C', 1, 2, t0=ANY, budget=40)
         for prog in _multisets('TCLF', 2):
-            add(2, prog, ANY, 1, 1, budget=45)
+            add(2, prog, 'C', 1, 1, t0=ANY, budget=30)
         for prog in ('CC', 'CF', 'FF'):
-            add(2, prog, 'C', 3, 1, budget=30)
-        for prog in _multisets('TCL', 3):
-            add(2, prog, 'C', 1, 1, budget=25)
-        for prog in ('PP', 'BB', 'CP', 'CB', 'FP', 'CCF', 'CFF'):
-            add(2, prog, 'C', 1, 1, budget=30)
+            add(2, prog, 'C', 3, 1, t0='i', budget=20)
+            add(2, prog, 'T', 1, 1, t0='i', budget=20)
+        for prog in _multisets('TCL', 3) + ['CCF', 'CFF']:
+            add(2, prog, 'C', 1, 1, t0='i', budget=15)
+        for prog in ('PP', 'BB', 'CP', 'CB', 'FP'):
+            add(2, prog, 'C', 1, 1, t0='i', budget=15)
         for prog in ('CC', 'TC'):
-            add(2, prog, 'C', 1, 1, k=2, budget=30)
+            add(2, prog, 'C', 1, 1, t0='i', k=2, budget=15)
     return runs
 
 
 reg('C06', level='model_checking', runs=c06_runs, quick_budget_s=240, thorough_budget_s=1300,
-    technique='stateless model checking of real pools running acyclic two-level nesting programs: every worker (and T0) ends up inside a wait; all interleavings up to a deviation bound with free futex-waiter picks; progress oracle',
-    level_text='Programs from the grammar outer set in {TaskSet, ConcurrentTaskSet heavy, ConcurrentTaskSet lightweight} x outer tasks each creating one inner construct from {TaskSet, ConcurrentTaskSet heavy/lightweight, async futures, waiting parallel_for, scheduleBulk+wait} with 1-2 leaves and waiting on it, outer and/or inner submissions optionally forced to the queue; pools of 1 and 2 workers with N and N+1 outer tasks (plus a zero-thread pool); every interleaving with <=1 deviation, futex waiter picks free, backstop timeouts allowed. Quick: N=1 every single kind x outer kind x forcing variant, every pair containing a heavy set or a future; N=2 four shapes. Thorough: the whole grammar for N=1 with 1-2 outer tasks, bound 2 on the smallest N=1 shapes, all pairs over {T,C,L,F} x outer kinds and all triples over {T,C,L} for N=2. Oracle: the outer wait returns and the pool can be destroyed - a deadlock, livelock or step-horizon verdict is the violation; coverage guard: the state "every worker is inside an inner wait" is reached, also with a non-empty steal ring.',
+    technique='stateless model checking of real pools running acyclic two-level nesting programs: every worker ends up inside a wait while T0 either waits on the outer set or stays idle; all interleavings up to a deviation bound with free futex-waiter picks; progress oracle',
+    level_text='Programs from the grammar outer set in {TaskSet, ConcurrentTaskSet heavy, ConcurrentTaskSet lightweight} x outer tasks each creating one inner construct from {TaskSet, ConcurrentTaskSet heavy/lightweight, async futures, waiting parallel_for, scheduleBulk+wait} with 1-2 leaves and waiting on it, outer and/or inner submissions optionally forced to the queue, T0 waiting on the outer set (a helper) or idle until the outer tasks ended (the pool on its own); pools of 1 and 2 workers with N and N+1 outer tasks (plus a zero-thread pool); every interleaving with <=1 deviation, futex waiter picks free, backstop timeouts allowed. Quick: N=1 every single kind x 12 (outer kind, forcing, T0 role) variants, every pair containing a heavy set or a future; N=2 three shapes (time-boxed). Thorough: the whole grammar for N=1 with 1-2 outer tasks, bound 2 on the smallest N=1 shapes, all pairs over {T,C,L,F} x outer kinds and all triples over {T,C,L} for N=2. Oracle: the outer wait returns and the pool can be destroyed - a deadlock or livelock verdict, or 3 s of virtual time (30 backstop periods) without an end, is the violation; coverage guard: the state "every worker is inside an inner wait" is reached, also with a non-empty steal ring.',
     level_note='SC interleavings; nesting depth 2 only; timeouts are allowed to fire (the statement is about termination, not latency); runs that hit their time budget are reported as not exhaustive; a TSan and an ASan leg re-run two small shapes.',
     design_ref='DESIGN.md section 4, C06', assumptions=MC_ASSUME, rule=RULE,
-    guards=[need_cover('all_workers_in_wait', 'steal_ring_nonempty_at_wait', 't0_in_inner_wait', 'inner_T', 'inner_C', 'inner_L', 'inner_F', 'inner_P', 'inner_B'),
+    guards=[need_cover('all_workers_in_wait', 'steal_ring_nonempty_at_wait', 't0_in_inner_wait', 't0_idle', 'inner_T', 'inner_C', 'inner_L', 'inner_F', 'inner_P', 'inner_B'),
             need_outcomes(20)])
 
 
@@ -106,13 +108,13 @@ def c16_runs(tier):
             add(2, shape, a, d, ANY, 'h', 1, budget=25)
     else:
         for shape, a, d in SHAPES:
-            add(1, shape, a, d, ANY, ANY, 2, budget=60)
+            add(1, shape, a, d, ANY, ANY, 2, budget=45)
         add(1, 'bin', 2, 2, 1, 'h', 1, mode='tsan', budget=60)
         add(1, 'flat', 3, 1, 4, 'l', 1, mode='asan', budget=60)
         for shape, a, d in SHAPES:
-            add(2, shape, a, d, ANY, ANY, 1, budget=50)
-        add(2, 'flat', 2, 1, 1, 'h', 2, budget=120)
-        add(2, 'flat', 3, 1, 4, 'h', 2, budget=120)
+            add(2, shape, a, d, ANY, ANY, 1, budget=35)
+        add(2, 'flat', 2, 1, 1, 'h', 2, budget=80)
+        add(2, 'flat', 3, 1, 4, 'h', 2, budget=80)
         add(1, 'bin', 3, 2, ANY, 'h', 1, budget=40)
         add(1, 'bin', 4, 2, ANY, 'h', 1, budget=40)
     return runs
@@ -127,6 +129,7 @@ reg('C16', level='model_checking', runs=c16_runs, quick_budget_s=240, thorough_b
 
 
 # ---------------------------------------------------------------------------------------------- C46
+BASE = 128  # = 4*kMaxInlineDepth, the ceiling: every bounded composition of guarded mechanisms has saturated within that many links/items/nodes
 DEFAULT_ONLY = {'free_switch_cost': 1}  # with bound 0: exactly the canonical schedule (switches at blocking points are not varied)
 
 
@@ -153,15 +156,15 @@ def c46_families():
 
 def c46_runs(tier):
     runs = []
-    big = (256,) if tier == 'quick' else (64, 128, 256, 512, 1024, 2048)
+    big = (256,) if tier == 'quick' else (BASE, 256, 512, 1024, 2048)
     for fam in c46_families():
         for n in big:
-            runs.append(McRun(BIN, 'depth', dict(fam, n=n, n0=64), bound=0, opts=DEFAULT_ONLY, budget=40))
+            runs.append(McRun(BIN, 'depth', dict(fam, n=n, n0=BASE), bound=0, opts=DEFAULT_ONLY, budget=40))
         if tier == 'quick' and (fam['prog'], fam['N']) in (('sched_cts', 1), ('sched_ctsl', 2), ('pipe', 1), ('pipe', 2), ('comb_pf', 1)):
-            runs.append(McRun(BIN, 'depth', dict(fam, n=64, n0=64), bound=0, opts=DEFAULT_ONLY, budget=40))
+            runs.append(McRun(BIN, 'depth', dict(fam, n=BASE, n0=BASE), bound=0, opts=DEFAULT_ONLY, budget=40))
     runs.insert(4, McRun(BIN, 'depth', dict(prog='pipe', N=1, n=6), bound=0, mode='tsan', budget=40))
     runs.insert(5, McRun(BIN, 'depth', dict(prog='then_unready', sched='c', rel=1, N=1, n=4), bound=0, mode='asan', budget=40))
-    runs.insert(6, McRun(BIN, 'depth', dict(prog='sched_cts', N=1, n=96, n0=64), bound=0, mode='asan', opts=DEFAULT_ONLY, budget=40))
+    runs.insert(6, McRun(BIN, 'depth', dict(prog='sched_cts', N=1, n=160, n0=BASE), bound=0, mode='asan', opts=DEFAULT_ONLY, budget=40))
     # all single-deviation schedules of small programs (ceiling only: nothing can be compared below saturation)
     small = [(1, 4)] if tier == 'quick' else [(1, 1), (1, 2), (1, 4), (1, 8), (2, 2), (2, 4)]
     for N, n in small:
@@ -174,7 +177,7 @@ def c46_runs(tier):
 
 
 def c46_same_depth_for_every_n(results):
-    """depth(n) == depth(64), literally: runs of one family that differ only in n must report the same lvl=/open= maxima"""
+    """depth(n) == depth(BASE), literally: runs of one family that differ only in n must report the same lvl=/open= maxima"""
     fam = {}
     for r in results:
         run = r.get('run', {})
@@ -187,17 +190,17 @@ def c46_same_depth_for_every_n(results):
             fam.setdefault(key, {})[int(params['n'])] = vals
     bad = []
     for key, byn in fam.items():
-        if 64 in byn:
+        if BASE in byn:
             for n, vals in sorted(byn.items()):
-                if vals != byn[64]:
-                    bad.append('%s: n=64 %s but n=%d %s' % (dict(key), byn[64], n, vals))
+                if vals != byn[BASE]:
+                    bad.append('%s: n=%d %s but n=%d %s' % (dict(key), BASE, byn[BASE], n, vals))
     return 'inline depth differs between program sizes: ' + '; '.join(bad[:4]) if bad else None
 
 
 reg('C46', level='model_checking', runs=c46_runs, quick_budget_s=240, thorough_budget_s=1300,
-    technique='real pools running programs of growing size n under the controlled scheduler; per-thread nesting of task bodies measured from the stack pointer (live task frames) and by an open-body counter; within a run the bodies with index >= 64 are compared with the bodies with index < 64, across runs the maxima for different n are compared',
-    level_text='Program families: a task that schedules its successor through ThreadPool::schedule, TaskSet::schedule (0-1 workers), ConcurrentTaskSet::schedule heavy and lightweight; then-chains on a held (unready) root released on T0 or on a worker, and on a ready root, with ThreadPool / TaskSet / ConcurrentTaskSet as the schedulable; a serial 3-stage pipeline fed n items; a chain and a comb graph of n forks under SingleThread, ParallelFor and ConcurrentTaskSet executors (poolRecursiveLoadFactor 3.0 and 0); pool sizes 0, 1, 2; load multipliers 1 (forcing the inline paths) and the defaults. n=256 (thorough: 64..2048) on the default schedule, plus every schedule with <=1 deviation for n=4 on one worker (thorough: n in {1,2,4,8}, 1-2 workers). Oracle: no body with index >= 64 sees more live task frames on its thread (or more open task bodies) than the bodies with index < 64 did, the maxima reported for every n equal those for n=64, and the number of live task frames never exceeds 4*kMaxInlineDepth = 128. Tasks wait on nothing; T0 waits with a harness-level block so that no work is run from inside a user wait (pipeline() and the graph executors block by contract).',
-    level_note='independence from n is checked, not a particular constant; the comparison is only meaningful on the default schedule (large n), the bound-1 runs of small n check the ceiling and exercise the other paths; nesting is counted from stack addresses within one thread only (entries are dropped when a later body starts at the same or a shallower position), so bodies reached through call paths of different depth may add a small constant. One program per execution: the engine names locations by address, so two pools built one after the other inside one execution make replays diverge.',
+    technique='real pools running programs of growing size n under the controlled scheduler; per-thread nesting of task bodies measured from the stack pointer (live task frames) and by an open-body counter; within a run the bodies with index >= 128 are compared with the bodies with index < 128, across runs the maxima for different n are compared',
+    level_text='Program families: a task that schedules its successor through ThreadPool::schedule, TaskSet::schedule (0-1 workers), ConcurrentTaskSet::schedule heavy and lightweight; then-chains on a held (unready) root released on T0 or on a worker, and on a ready root, with ThreadPool / TaskSet / ConcurrentTaskSet as the schedulable; a serial 3-stage pipeline fed n items; a chain and a comb graph of n forks under SingleThread, ParallelFor and ConcurrentTaskSet executors (poolRecursiveLoadFactor 3.0 and 0); pool sizes 0, 1, 2; load multipliers 1 (forcing the inline paths) and the defaults. n=256 (thorough: 128..2048) on the default schedule, plus every schedule with <=1 deviation for n=4 on one worker (thorough: n in {1,2,4,8}, 1-2 workers). Oracle: no body with index >= 128 sees more live task frames on its thread (or more open task bodies) than the bodies with index < 128 did, the maxima reported for every n equal those for n=128, and the number of live task frames never exceeds 4*kMaxInlineDepth = 128. Tasks wait on nothing; T0 waits with a harness-level block so that no work is run from inside a user wait (pipeline() and the graph executors block by contract).',
+    level_note='independence from n is checked, not a particular constant; the baseline is the first 128 = 4*kMaxInlineDepth indices rather than 64 because two guarded mechanisms compose in the pipeline (33 frames within the first 64 items, 37 from item ~100 on, constant up to n=2048); the comparison is only meaningful on the default schedule (large n), the bound-1 runs of small n check the ceiling and exercise the other paths; nesting is counted from stack addresses within one thread only (entries are dropped when a later body starts at the same or a shallower position), so bodies reached through call paths of different depth may add a small constant. One program per execution: the engine names locations by address, so two pools built one after the other inside one execution make replays diverge.',
     design_ref='DESIGN.md section 4, C46', assumptions=MC_ASSUME, rule=RULE,
     guards=[need_cover('body_inside_body', 'body_inside_completion_path', 'depth_guard_saturated', 'compared_against_baseline', 'depth_equal_to_baseline'),
             c46_same_depth_for_every_n, need_outcomes(6)])
